@@ -286,6 +286,23 @@ def run_case(case, ctx):
             ctx.tag("cdeseason:not-seasonal")
     else:
         ctx.seen("phase", 0)
+    # ---- the same numbers on a daily datetime index (stretches that start before the training series included): same values ------------
+    if inner_kind in ("deseason", "cdeseason") and not case["gapped"] and len(positions) == b - a and isinstance(y, pd.Series) and not case["updates"]:
+        try:
+            t0 = pd.Timestamp("2001-03-01")
+            trd = build(cfg)
+            trd.fit(pd.Series(np.asarray(y, dtype=float), index=pd.date_range(t0, periods=len(y), freq="D")))
+            zd = pd.Series(np.asarray(z, dtype=float), index=pd.date_range(t0 + pd.Timedelta(days=int(a)), periods=len(positions), freq="D"))
+            ztd = trd.transform(zd)
+            ran = True
+        except Exception as e:  # noqa
+            ran = False
+            ctx.tag("datetime-index-twin-not-runnable:" + type(e).__name__)
+        if ran:
+            ctx.check("phase", _close(np.asarray(ztd, dtype=float), np.asarray(zt, dtype=float), 1e-9), "phase:datetime-index:differs-from-integer-index:" + inner_kind,
+                      "the same observations on a daily datetime index are deseasonalised differently (the figure removed at a time point depends on its position relative to the "
+                      "training start, also before it)", stretch_start=a, got=np.asarray(ztd, dtype=float)[:5].tolist(), expected=np.asarray(zt, dtype=float)[:5].tolist())
+            ctx.tag("datetime-index-twin")
     # ---- index shift ------------------------------------------------------------------------------------------------------
     k = case["shift"]
     tr2 = build(cfg)
